@@ -155,6 +155,11 @@ fn parse(text: &str) -> Parse {
                 }
             }
 
+            // Comments may be the last thing in a paragraph (or in the file)
+            if matches!(self.current(), None | Some(NEWLINE)) {
+                return;
+            }
+
             self.builder.start_node(ENTRY.into());
 
             // First, parse the key and colon
